@@ -221,7 +221,14 @@ impl Check for C14 {
             dotfiles: false,
             decoys: rng.chance(1, 2),
         };
-        let world = gen::split_tree(rng, entries, crlf, &tcfg);
+        let mut world = gen::split_tree(rng, entries, crlf, &tcfg);
+        if rng.chance(1, 6) {
+            for f in world.files.iter_mut() {
+                if rng.chance(1, 2) {
+                    f.stray_cr = 1;
+                }
+            }
+        }
         let mut tear = None;
         if kind == "torn" {
             let (files, extents) = world.render();
